@@ -8,6 +8,7 @@ from .. import paths
 from ..core import FUNC, call_attr, calls_in, chain, dotted, kwarg, text, walk_local, norm, is_const, const
 
 EXPLANATION = [
+    'C03.ll-coverage: every link-layer control PDU class the virtual controller constructs in a send_ll_control_pdu call has a matching `case` in on_ll_control_pdu (otherwise the HCI procedure that sent it is accepted as pending and never concluded, in one of the two roles).',
     'C03.host-complete: a Command Complete that only carries credits (opcode 0) never concludes the pending command: on_command_processed / set_result are reached only on paths where `event.command_opcode == 0` is excluded (symbolic path facts); the pending future is resolved once, under `if self.pending_response`.',
     'C03.lmp-answers: each classic LMP request the virtual controller accepts is answered by exactly one response naming that request; the responder side answers the request it received.',
     'C03.host-send: typestate walk of Host._send_command over all normal and '
@@ -788,7 +789,38 @@ def host_complete(ctx):
         R.check(len(sets) == 1 and g == [['self.pending_response']], rule, 'bumble.host.Host.on_command_processed | resolves the pending future', 'exactly one set_result, only when a caller is waiting', 'the pending response future is not resolved exactly once under `if self.pending_response`', p.loc(cp))
 
 
+
+def ll_coverage(ctx):
+    """Every link-layer control PDU the virtual controller can send is handled by the controller that receives it."""
+    R, p = ctx.r, ctx.p
+    rule = 'C03.ll-coverage'
+    c = p.cls('bumble.controller.Controller')
+    h = p.find('bumble.controller.Controller.on_ll_control_pdu')
+    if c is None or h is None:
+        R.bad(rule, 'bumble.controller.Controller.on_ll_control_pdu', 'anchor missing')
+        return
+    sent = {}
+    m = p.module('bumble.controller')
+    for call in ast.walk(m.tree):
+        if isinstance(call, ast.Call) and call_attr(call) == 'send_ll_control_pdu' and call.args:
+            a = call.args[-1]
+            if isinstance(a, ast.Call) and (dotted(a.func) or '').startswith('ll.'):
+                sent.setdefault(dotted(a.func)[3:], call)
+    handled = set()
+    for mt in ast.walk(h):
+        if isinstance(mt, ast.Match):
+            for case in mt.cases:
+                for pt in ast.walk(case.pattern):
+                    if isinstance(pt, ast.MatchClass) and (dotted(pt.cls) or '').startswith('ll.'):
+                        handled.add(dotted(pt.cls)[3:])
+    for name, call in sorted(sent.items()):
+        R.check(name in handled, rule, f'bumble.controller.Controller.on_ll_control_pdu | ll.{name}', 'sent by the controller and matched by the receiving controller',
+                f'the controller sends ll.{name} (in {p.qual_of(call)}) but no `case ll.{name}()` handles it on the receiving side: the procedure that sent it is accepted as pending and never concluded', p.loc(call))
+    R.check(len(sent) >= 8, rule, 'bumble.controller | LL control PDUs sent', f'{len(sent)} PDU classes sent, {len(handled)} handled', f'only {len(sent)} sent PDU classes found')
+
+
 RULES = [
+    ('C03.ll-coverage', ll_coverage),
     ('C03.host-complete', host_complete),
     ('C03.lmp-answers', lmp_answers),
     ('C03.host-send', host_send),
